@@ -7,6 +7,7 @@
 
 #![allow(clippy::single_match)]
 
+use crate::stack::StackUsage;
 use crate::{ebpf, format, vec, Error, HashMap, Vec};
 #[cfg(not(feature = "std"))]
 use crate::ErrorKind;
@@ -472,14 +473,19 @@ impl JitCompiler {
         }
     }
 
-    fn emit_local_call(&mut self, mem: &mut JitMemory, target_pc: isize) {
+    fn emit_local_call(&mut self, mem: &mut JitMemory, target_pc: isize, frame_size: u16) {
         self.emit_push(mem, map_register(6));
         self.emit_push(mem, map_register(7));
         self.emit_push(mem, map_register(8));
         self.emit_push(mem, map_register(9));
+        // Save the frame pointer and give the callee its own frame, below the caller's, as the
+        // interpreter does: r10 -= stack usage of the calling function.
+        self.emit_push(mem, map_register(10));
+        self.emit_alu64_imm32(mem, 0x81, 5, map_register(10), frame_size as i32);
         // 0xe8 is the opcode for a CALL
         self.emit1(mem, 0xe8);
         self.emit_jump_offset(mem, target_pc);
+        self.emit_pop(mem, map_register(10));
         self.emit_pop(mem, map_register(9));
         self.emit_pop(mem, map_register(8));
         self.emit_pop(mem, map_register(7));
@@ -493,6 +499,7 @@ impl JitCompiler {
         use_mbuff: bool,
         update_data_ptr: bool,
         helpers: &HashMap<u32, ebpf::Helper>,
+        stack_usage: Option<&StackUsage>,
     ) -> Result<(), Error> {
         self.emit_push(mem, RBP);
         self.emit_push(mem, RBX);
@@ -561,9 +568,15 @@ impl JitCompiler {
 
         self.pc_locs = vec![0; prog.len() / ebpf::INSN_SIZE + 1];
 
+        // Stack usage of the function being compiled (tracked in program order, like the
+        // interpreter does at run time).
+        let mut frame_size = ebpf::LOCAL_FUNCTION_STACK_SIZE;
         let mut insn_ptr: usize = 0;
         while insn_ptr * ebpf::INSN_SIZE < prog.len() {
             let insn = ebpf::get_insn(prog, insn_ptr);
+            if let Some(usage) = stack_usage.and_then(|s| s.stack_usage_for_local_func(insn_ptr)) {
+                frame_size = usage.stack_usage();
+            }
 
             self.pc_locs[insn_ptr] = mem.offset;
 
@@ -960,7 +973,7 @@ impl JitCompiler {
                         }
                         0x1 => {
                             let target_pc = insn_ptr as isize + insn.imm as isize + 1;
-                            self.emit_local_call(mem, target_pc);
+                            self.emit_local_call(mem, target_pc, frame_size);
                         }
                         _ => {
                             Err(Error::other(
@@ -1063,13 +1076,14 @@ impl<'a> JitMemory<'a> {
         helpers: &HashMap<u32, ebpf::Helper>,
         use_mbuff: bool,
         update_data_ptr: bool,
+        stack_usage: Option<&StackUsage>,
     ) -> Result<JitMemory<'a>, Error> {
         let layout;
 
         // Pass 1: size-only, no writes.
         let mut counter = JitMemory::counter();
         let mut jit = JitCompiler::new();
-        jit.jit_compile(&mut counter, prog, use_mbuff, update_data_ptr, helpers)?;
+        jit.jit_compile(&mut counter, prog, use_mbuff, update_data_ptr, helpers, stack_usage)?;
         let size = round_up_to_page(counter.offset.max(PAGE_SIZE));
 
         let contents = unsafe {
@@ -1099,7 +1113,7 @@ impl<'a> JitMemory<'a> {
 
         // Pass 2: real emission + reloc resolution.
         let mut jit = JitCompiler::new();
-        jit.jit_compile(&mut mem, prog, use_mbuff, update_data_ptr, helpers)?;
+        jit.jit_compile(&mut mem, prog, use_mbuff, update_data_ptr, helpers, stack_usage)?;
         jit.resolve_jumps(&mut mem)?;
 
         Ok(mem)
@@ -1112,11 +1126,12 @@ impl<'a> JitMemory<'a> {
         helpers: &HashMap<u32, ebpf::Helper>,
         use_mbuff: bool,
         update_data_ptr: bool,
+        stack_usage: Option<&StackUsage>,
     ) -> Result<JitMemory<'a>, Error> {
         // Pass 1: compute required size.
         let mut counter = JitMemory::counter();
         let mut jit = JitCompiler::new();
-        jit.jit_compile(&mut counter, prog, use_mbuff, update_data_ptr, helpers)?;
+        jit.jit_compile(&mut counter, prog, use_mbuff, update_data_ptr, helpers, stack_usage)?;
         let size = round_up_to_page(counter.offset.max(PAGE_SIZE));
 
         let contents = executable_memory;
@@ -1141,7 +1156,7 @@ impl<'a> JitMemory<'a> {
 
         // Pass 2: real emission + reloc resolution.
         let mut jit = JitCompiler::new();
-        jit.jit_compile(&mut mem, prog, use_mbuff, update_data_ptr, helpers)?;
+        jit.jit_compile(&mut mem, prog, use_mbuff, update_data_ptr, helpers, stack_usage)?;
         jit.resolve_jumps(&mut mem)?;
 
         Ok(mem)
